@@ -651,6 +651,14 @@ def fixed_histories():
         ops = ([["apply", {"gates": G1}], ["apply", {"gates": G3}]] + [["add", lr]] + [["apply", {"gates": G3, "reuse": "a"}]]
                + [["add", dict(late[(j + 3) % len(late)], share_error=True)]] + [["apply", {"gates": G3, "reuse": "a"}], ["apply", {"gates": G2}]])
         hs.append({"n": 3, "dm": bool((j + 1) % 2), "customs": [["amp", [0], 0]], "ops": ops})
+    # the very same rule registered twice -- identical (conditions, error object, qubits) under the same key: the model
+    # (a rule LIST) prescribes the channel twice; a registry that silently de-duplicates equal rules drops one
+    for j, (key, err, qubits) in enumerate([(None, P, None), (None, D, [0]), ("H", P, None), ("CNOT", D, None), ("CNOT", ["reset", 1], [1]),
+                                            ("M", RO, None), (None, ["unitary", 1, 0], None), ("TOFFOLI", ["depol", 2], None)]):
+        r = _rule(key, err, qubits, None, share_error=True)
+        for ops in ([["add", r], ["add", r], ["apply", {"gates": G1}], ["apply", {"gates": G3}]],
+                    [["add", r], ["apply", {"gates": G1}], ["add", r], ["apply", {"gates": G1}], ["apply", {"gates": G2}]]):
+            hs.append({"n": 3, "dm": bool(j % 2), "customs": [["pauli", [1], 0]], "ops": ops})
     return hs
 
 
